@@ -39,7 +39,7 @@ def _euler_bcs(rng, rho, u, p, gam):
 def _uniform_scn(rng, mname=None, big=0.0):
     mname = mname or str(rng.choice(["convection", "burgers", "shallowwater", "euler1d", "euler1d", "euler1d", "nozzle"]))
     model, mparams = gen.make_model(mname, rng)
-    mesh, mdesc = gen.mesh1d(rng, nmin=1 if rng.random() < 0.1 else 3, nmax=20, big=big)
+    mesh, mdesc = gen.mesh1d(rng, nmin=1 if rng.random() < 0.1 else 3, nmax=20, big=big, lscale=0.1 if big else 0.0)
     num, rname = gen.any_recon(rng)
     fl = gen.FLUXES[mname]
     flux = fl[int(rng.integers(len(fl)))]
